@@ -134,6 +134,10 @@ func (e ErrSpec) Build() error {
 		return context.DeadlineExceeded
 	case "okstatus":
 		return okStatusErr{e.Msg}
+	case "eof":
+		return io.EOF // e.g. a handler that returns the io.EOF its own RecvMsg gave it: a failure all the same
+	case "wrapped-eof":
+		return fmt.Errorf("reading request: %w", io.EOF)
 	}
 	st := status.New(codes.Code(e.Code), e.Msg)
 	if len(e.Details) > 0 && codes.Code(e.Code) != codes.OK {
